@@ -215,9 +215,10 @@ TPure ==
 (* Round lines                                                              *)
 (***************************************************************************)
 RECURSIVE SetToSortedStrings(_)
-SetToSortedStrings(S) ==   \* only used on the three kinds of P3: any fixed order will do
+SetToSortedStrings(S) ==   \* only used on the kinds of P3: any fixed order will do
   IF S = {} THEN <<>>
-  ELSE LET x == IF "not-offered" \in S THEN "not-offered" ELSE IF "repeated" \in S THEN "repeated" ELSE CHOOSE y \in S : TRUE
+  ELSE LET x == IF "a static port that was not offered" \in S THEN "a static port that was not offered"
+                ELSE IF "not-offered" \in S THEN "not-offered" ELSE IF "repeated" \in S THEN "repeated" ELSE CHOOSE y \in S : TRUE
        IN <<x>> \o SetToSortedStrings(S \ {x})
 
 NoMon == [open |-> FALSE, scn |-> -1, offers |-> <<>>, descs |-> <<>>, accepts |-> <<>>, declined |-> {}]
@@ -234,7 +235,7 @@ P1Pattern(m) ==
 \* class of a task whose ports are not what P2 asks for.  A shortage of ports (fewer requested than used) can come from a
 \* dynamic/control port falling on a static port only if the template has static ports in the dynamic range
 P2Short == "a dynamic or control port coincides with a static port"
-P2Clash == "dynamic and control ports of the task are not pairwise distinct (no static port involved)"
+P2Clash == "fewer ports requested than one per TCP channel plus the control port: not pairwise distinct (no static port involved)"
 P2NotAsWritten == "static range not requested as written"
 P2Class(d, t) ==
   LET static == PortSet(DescStatic(d))
